@@ -14,3 +14,6 @@ def define(M):
     M("C08", "inplace_changes_decomposition", "Lib/ufo2ft/preProcessor.py",
       "        filters.append(DecomposeComponentsFilter())\n\n        if removeOverlaps:",
       "        filters.append(DecomposeComponentsFilter(include=(lambda g: True) if not self.inplace else (lambda g: len(g.components) < 3)))\n\n        if removeOverlaps:", cases=40)
+    # the repaired defect (5718450) put back: set iteration order decides colliding anchor keys
+    M("C08", "propagate_anchors_in_set_order", "Lib/ufo2ft/filters/propagateAnchors.py",
+      "    for anchor_name in sorted(anchor_names):", "    for anchor_name in anchor_names:", cases=60)
